@@ -471,6 +471,34 @@ func (c16) Exec(c *core.Case) (out *core.Outcome) {
 			}
 			o.Violate("listbuckets", "C16/listbuckets/"+kind, "ListBuckets of a non-admin (prefix %q, max-buckets %d) yields %v; the buckets it owns: %v", p.Prefix, p.MaxB, got, want)
 		}
+		// an owner change (admin API) after both accounts have listed: what each non-admin sees follows at once
+		if len(o.Violations) == 0 {
+			names := func(cl *env.Client) (map[string]bool, bool) {
+				res := cl.Do(s3c.ListBuckets())
+				o.Evals++
+				var lb s3c.ListBucketsResult
+				if !res.Resp.OK() || xml.Unmarshal(res.Resp.Body, &lb) != nil {
+					return nil, false
+				}
+				m := map[string]bool{}
+				for _, b := range lb.Buckets.Bucket {
+					m[b.Name] = true
+				}
+				return m, true
+			}
+			if m, ok := names(oth()); ok && m["other16bucket"] && root.Do(s3c.AdminChangeOwner("other16bucket", "own16")).Resp.OK() {
+				o.Probe("owner_changed_after_listings")
+				mo, ok1 := names(own())
+				mt, ok2 := names(oth())
+				if ok1 && !mo["other16bucket"] {
+					o.Violate("listbuckets", "C16/listbuckets/owner-change-not-followed/new-owner", "after the admin API made own16 the owner of other16bucket, own16's ListBuckets does not show it")
+				}
+				if ok2 && mt["other16bucket"] {
+					o.Violate("listbuckets", "C16/listbuckets/owner-change-not-followed/old-owner", "after the admin API made own16 the owner of other16bucket, oth16's ListBuckets still shows it")
+				}
+				o.AddClass("existing|listbuckets-after-owner-change")
+			}
+		}
 	case "settings":
 		const b = "set16"
 		current := map[string]string{"versioning": "Enabled", "ownershipControls": "BucketOwnerPreferred"}
